@@ -127,6 +127,15 @@ def cases():
         body = '<xs:element name="E0">' + "".join(f'<xs:complexType><xs:sequence><xs:element name="E{i + 1}">' for i in range(depth)) + \
                "".join('</xs:element></xs:sequence></xs:complexType>' for _ in range(depth)) + "</xs:element>"
         xsd(f"deep-anonymous-elements:depth={depth}", body)
+    # ---- nesting far beyond anything a schema needs (an XML parser that recurses per level must not take the stack down)
+    for depth in (20_000, 100_000):
+        out.append((f"deep-plain-elements:depth={depth}", {"a.xsd": "<a>" * depth + "</a>" * depth}, "a.xsd"))
+        xsd(f"deep-inside-annotation:depth={depth}", "<xs:annotation>" + "<x>" * depth + "</x>" * depth + "</xs:annotation>")
+        xsd(f"deep-choice:depth={depth}", '<xs:complexType name="C"><xs:sequence>' + "<xs:choice>" * depth + '<xs:element name="a" type="xs:int"/>'
+            + "</xs:choice>" * depth + "</xs:sequence></xs:complexType>")
+        xsd(f"deep-unclosed:depth={depth}", "<xs:sequence>" * depth)
+        out.append((f"deep-in-imported-file:depth={depth}", {"a.xsd": schema('<xs:import namespace="http://zv.test/b" schemaLocation="b.xsd"/>'),
+                                                             "b.xsd": "<b a='>'>" * depth + "</b>" * depth}, "a.xsd"))
     # ---- root kinds
     out.append(("root-not-schema", {"a.xsd": "<foo><bar/></foo>"}, "a.xsd"))
     out.append(("root-schema-wrong-ns", {"a.xsd": '<schema><complexType name="C"><sequence><element name="a" type="string"/></sequence></complexType></schema>'}, "a.xsd"))
